@@ -118,6 +118,8 @@ func emitDecide(g *zv.Gen, der []byte, ca int, issuerNil bool, cert string) {
 	a := decodeAbs(der, pool()[ca])
 	h, s := absFields(a)
 	g.Emitf("c13 decide %s %s %s %s %d %s", h, b01(!issuerNil), cert, s, ca, zv.Hex(der))
+	// the same case with the Lean side decoding the DER itself (ZV.Model.C13Der) instead of taking the abstract fields
+	g.Emitf("c13 bytes %s %s %s %s %d %s", h, b01(!issuerNil), cert, s, ca, zv.Hex(der))
 }
 
 func execDecide(f []string) zv.Out {
@@ -864,7 +866,7 @@ func genReq(g *zv.Gen) {
 func exec(line string) zv.Out {
 	f := strings.Fields(line)
 	switch f[1] {
-	case "decide":
+	case "decide", "bytes":
 		return execDecide(f[1:])
 	case "resp":
 		return execResp(f[1:])
@@ -876,6 +878,16 @@ func exec(line string) zv.Out {
 		return execTamper(f[1:])
 	case "tstruct":
 		return execTStruct(f[1:])
+	case "der":
+		return execDer(f[1:])
+	case "rq":
+		return execRq(f[1:])
+	case "rqd":
+		return execRqd(f[1:])
+	case "time":
+		return execTime(f[1:])
+	case "schema":
+		return execSchema(f[1:])
 	}
 	panic("unknown sub-op " + f[1])
 }
@@ -885,10 +897,13 @@ func gen(g *zv.Gen) {
 	genDecide(g)
 	genResp(g)
 	genReq(g)
+	genDer(g)
+	genRq(g)
+	genTime(g)
 	genTamper(g)
 }
 
 func init() {
 	zv.Register(&zv.Prop{ID: "C13", Topic: "c13", Gen: gen, Exec: exec, Timeout: 20 * time.Minute, // the all-positions x all-255-values tamper lines are heavy; on a loaded machine 2 min was not enough
-		Rule: "decide: hand-assembled OCSP responses (0..4 single responses with duplicate serials and every CHOICE-arm combination, 0..2 embedded certificates in 10 signer/certificate arrangements, good/corrupted signatures, signature BIT STRINGs declaring 1..7 unused bits over a value ending in zero bits, swapped TBS, responder by name/key hash/bad tag, status/type/trailing-data/truncation variants) x 6 issuers x issuer or nil x cert nil/matching/absent, decoded independently with the standard library into the model's abstract input; resp: CreateResponse templates (issuers RSA-1024/2048, P-256, P-384, P-224, P-521 and delegated responders P-256, RSA-2048, RSA-1024, P-384, P-521, P-224 x 6 signer modes x default and each of 13 requested signature algorithms x status x reason x issuer hash x extensions x times incl. GeneralizedTime bounds, nanoseconds, zones) parsed back and compared field by field, the accept/refuse decision and the resulting SignatureAlgorithm compared with the Lean model of signingParamsForPublicKey, and each created response re-parsed with its signature BIT STRING re-declared with k unused bits (k up to the number of trailing zero bits), one flipped bit in TBS and signature, and a changed algorithm OID; req: CreateRequest/Marshal -> ParseRequest over all crypto.Hash ids; tstruct: ALL 255 values at every structural byte (tags, every length octet of every wrapper, unused-bits octets, algorithm identifiers, status, response type; 12 masks on the first/last content bytes and in the embedded certificate's outer algorithm) of responses of every issuer x {issuer-signed with >= 7 trailing zero signature bits, delegated, issuer-signed + certificate, hand-assembled two certificates / key-hash responder / 3 single responses}; tamper: every byte position of signed responses x walking-bit and random masks, all 255 values at every position of one response (thorough: of 18), random windows x 6-12 masks. An accepted mutant is a violation unless tbsResponseData, the signature BIT STRING (value, BitLength) and the signatureAlgorithm OID are byte-identical (by position in the original and by an independent decode of the mutant), every reported field is unchanged, golang.org/x/crypto/ocsp accepts it too, and the difference is one of: wrapper (length octets of EXPLICIT wrappers / algorithm parameters, which encoding/asn1 does not compare), trailing-cert (certificates after the first), cert-dropped (certs field no longer recognised AND the response verifies directly under the issuer with the standard library), cert-outer (first embedded certificate differs outside its tbsCertificate and signatureValue, both byte-identical). A case is one distinct line; a tamper/tstruct line covers a position set of one response."})
+		Rule: "decide: hand-assembled OCSP responses (0..4 single responses with duplicate serials and every CHOICE-arm combination, 0..2 embedded certificates in 10 signer/certificate arrangements, good/corrupted signatures, signature BIT STRINGs declaring 1..7 unused bits over a value ending in zero bits, swapped TBS, responder by name/key hash/bad tag, status/type/trailing-data/truncation variants) x 6 issuers x issuer or nil x cert nil/matching/absent, decoded independently with the standard library into the model's abstract input; bytes: the same cases with the Lean side decoding the DER itself through its encoding/asn1 model and feeding the decision model (only the x509.ParseCertificate result and the three signature-primitive bits are taken from the line); resp: CreateResponse templates (issuers RSA-1024/2048, P-256, P-384, P-224, P-521 and delegated responders P-256, RSA-2048, RSA-1024, P-384, P-521, P-224 x 6 signer modes x default and each of 13 requested signature algorithms x status x reason x issuer hash x extensions x times incl. GeneralizedTime bounds, nanoseconds, zones) parsed back and compared field by field, the accept/refuse decision and the resulting SignatureAlgorithm compared with the Lean model of signingParamsForPublicKey, and each created response re-parsed with its signature BIT STRING re-declared with k unused bits (k up to the number of trailing zero bits), one flipped bit in TBS and signature, and a changed algorithm OID; req: CreateRequest/Marshal -> ParseRequest over all crypto.Hash ids; tstruct: ALL 255 values at every structural byte (tags, every length octet of every wrapper, unused-bits octets, algorithm identifiers, status, response type; 12 masks on the first/last content bytes and in the embedded certificate's outer algorithm) of responses of every issuer x {issuer-signed with >= 7 trailing zero signature bits, delegated, issuer-signed + certificate, hand-assembled two certificates / key-hash responder / 3 single responses}; tamper: every byte position of signed responses x walking-bit and random masks, all 255 values at every position of one response (thorough: of 18), random windows x 6-12 masks. An accepted mutant is a violation unless tbsResponseData, the signature BIT STRING (value, BitLength) and the signatureAlgorithm OID are byte-identical (by position in the original and by an independent decode of the mutant), every reported field is unchanged, golang.org/x/crypto/ocsp accepts it too, and the difference is one of: wrapper (length octets of EXPLICIT wrappers / algorithm parameters, which encoding/asn1 does not compare), trailing-cert (certificates after the first), cert-dropped (certs field no longer recognised AND the response verifies directly under the issuer with the standard library), cert-outer (first embedded certificate differs outside its tbsCertificate and signatureValue, both byte-identical). schema: the declarations of ocspRequest / responseASN1 / basicResponse (all nested types, field order, struct tags through the real parseFieldParameters) by reflection against the model's schema terms; der: the two asn1.Unmarshal calls of ParseResponseForCert on ocsp.go's own struct types (hook) against the Lean decode through its encoding/asn1 model at the schema terms of those types — responses of the assembler, hand-built responses with 0..4 single responses over every optional part (version, key-hash / odd responder ids, UTCTime in place of GeneralizedTime, zone offsets, NULL / absent / other algorithm parameters, unused signature bits, 0..2 certificates, 0..3 extensions with critical absent / TRUE / explicit FALSE, trailing elements), and mutants: a value set at EVERY identifier and length octet of the TLV tree, random single bytes, truncations; every decoded field is compared (status, type, TBS bytes, version, responder id, times as Unix seconds, hash OID and parameters, hashes, serial, CHOICE arms, reason, extensions, algorithm OID, signature bytes and BitLength, certificate count and sizes, both rests); rq: Request.Marshal bytes + ParseRequest of them; rqd: ParseRequest on marshalled requests, their header/random mutants and hand-built requests with version / requestor name / several entries; time: UTCTime / GeneralizedTime contents (boundary dates x leap years x zones, every position x substitutions / deletions / insertions, random fields) through asn1.Unmarshal into time.Time, with the standard library's encoding/asn1 as differential oracle (also for der). A case is one distinct line; a tamper/tstruct line covers a position set of one response."})
 }
